@@ -109,6 +109,23 @@ func counts(path string) (promises map[string]bool, tasks int, err error) {
 	return
 }
 
+// cqAIO: the minimum of aio.AIO the store's worker loop needs - it only hands completions back
+type cqAIO struct {
+	ch chan *bus.CQE[t_aio.Submission, t_aio.Completion]
+}
+
+func (a *cqAIO) String() string                                          { return "cqAIO" }
+func (a *cqAIO) Start() error                                            { return nil }
+func (a *cqAIO) Stop() error                                             { return nil }
+func (a *cqAIO) Shutdown()                                               {}
+func (a *cqAIO) Errors() <-chan error                                    { return nil }
+func (a *cqAIO) Signal(<-chan interface{}) <-chan interface{}            { return nil }
+func (a *cqAIO) Flush(int64)                                             {}
+func (a *cqAIO) Dispatch(*t_aio.Submission, func(*t_aio.Completion, error)) {}
+func (a *cqAIO) EnqueueSQE(*bus.SQE[t_aio.Submission, t_aio.Completion]) {}
+func (a *cqAIO) EnqueueCQE(c *bus.CQE[t_aio.Submission, t_aio.Completion]) { a.ch <- c }
+func (a *cqAIO) DequeueCQE(int) []*bus.CQE[t_aio.Submission, t_aio.Completion] { return nil }
+
 func main() {
 	seed := flag.Int64("seed", 1, "")
 	n := flag.Int("callbacks", 60000, "callbacks on the promise whose CreateTasks is the slow command")
@@ -291,6 +308,73 @@ func main() {
 			}
 			os.Remove(paths[i])
 		}
+	}
+
+	// 2c. the worker loop: what the store's own goroutine collects as ONE batch (up to BatchSize submissions) is one
+	// transaction - when a later submission of that batch fails, the earlier ones are neither applied nor acknowledged
+	{
+		wl := filepath.Join(*work, "loop.db")
+		os.Remove(wl)
+		b, err := sql.Open("sqlite3", wl)
+		if err != nil {
+			harnessErr(err)
+		}
+		if _, err := b.Exec(sqlite.CREATE_TABLE_STATEMENT); err != nil {
+			harnessErr(err)
+		}
+		b.Close()
+		prep, err := open(wl, 10*time.Second)
+		if err != nil {
+			harnessErr(err)
+		}
+		cb := &t_aio.Command{Kind: t_aio.CreateCallback, CreateCallback: &t_aio.CreateCallbackCommand{Id: "cb.loop", PromiseId: "lp", Recv: []byte(`"default"`),
+			Mesg: &message.Mesg{Type: message.Resume, Root: "root.loop", Leaf: "lp"}, Timeout: 1 << 40, CreatedOn: 1}}
+		mkTasks := func() *t_aio.Command {
+			return &t_aio.Command{Kind: t_aio.CreateTasks, CreateTasks: &t_aio.CreateTasksCommand{PromiseId: "lp", CreatedOn: 2}}
+		}
+		if cq, p := process(prep, []*bus.SQE[t_aio.Submission, t_aio.Completion]{sqe("s", createPromise("lp"), cb, mkTasks())}); p != "" || cq[0].Error != nil {
+			harnessErr(fmt.Errorf("worker-loop setup: %v %v", p, cq))
+		}
+		prep.Stop() // nolint
+		stub := &cqAIO{ch: make(chan *bus.CQE[t_aio.Submission, t_aio.Completion], 16)}
+		st, err := sqlite.New(stub, metrics.New(prometheus.NewRegistry()), &sqlite.Config{Size: 10, BatchSize: 3, Path: wl, TxTimeout: 10 * time.Second})
+		if err != nil {
+			harnessErr(err)
+		}
+		read := func(id string) *t_aio.Command {
+			return &t_aio.Command{Kind: t_aio.ReadPromise, ReadPromise: &t_aio.ReadPromiseCommand{Id: id}}
+		}
+		// three submissions, 2 + 2 + 1 commands; the last one fails (the tasks of "lp" exist already: UNIQUE violation)
+		for _, q := range []*bus.SQE[t_aio.Submission, t_aio.Completion]{sqe("a", createPromise("lq"), read("lq")), sqe("b", createPromise("lr"), read("lr")), sqe("c", mkTasks())} {
+			if !st.Enqueue(q) {
+				harnessErr(fmt.Errorf("worker-loop: enqueue refused"))
+			}
+		}
+		if err := st.Start(nil); err != nil {
+			harnessErr(err)
+		}
+		got := map[string]bool{} // id -> failed
+		deadline := time.After(15 * time.Second)
+		for len(got) < 3 {
+			select {
+			case c := <-stub.ch:
+				got[c.Id] = c.Error != nil
+			case <-deadline:
+				harnessErr(fmt.Errorf("worker-loop: only %d of 3 completions arrived", len(got)))
+			}
+		}
+		st.Stop() // nolint
+		proms, _, rerr := counts(wl)
+		if rerr != nil {
+			harnessErr(rerr)
+		}
+		cnt["worker_loop_batches"]++
+		detail := M{"a_failed": got["a"], "b_failed": got["b"], "c_failed": got["c"], "lq_in_db": proms["lq"], "lr_in_db": proms["lr"]}
+		if got["c"] && (!got["a"] || !got["b"] || proms["lq"] || proms["lr"]) {
+			fail("one batch of the store's worker loop (three submissions collected together, the third fails) was applied in part: the earlier submissions were acknowledged or written", detail)
+			finish()
+		}
+		os.Remove(wl)
 	}
 
 	// 3. sweep
